@@ -62,9 +62,11 @@ def prv(e): return offset(e, -1)
 def der(e): return E('der', E._w(e))
 def inf_der(e): return E('inf_der', E._w(e))
 def Q(i): return E('q', i)            # i-th declared quadrature state
+PINF = E('inf', 1)                   # +infinity as a bound component of a (vector valued) two-sided constraint
+NINF = E('inf', -1)
 
 
-LEAVES = {'c', 'x', 'u', 'z', 'p', 'v', 't', 'T', 't0', 'tf', 'DT', 'DTc', 'q'}
+LEAVES = {'c', 'x', 'u', 'z', 'p', 'v', 't', 'T', 't0', 'tf', 'DT', 'DTc', 'q', 'inf'}
 WRAP = {'at_t0', 'at_tf', 'integral', 'integral_control', 'sum', 'offset', 'der', 'inf_der'}
 
 
@@ -73,6 +75,8 @@ def show(e):
         return repr(e)
     if e.op == 'c':
         return str(e.a[0])
+    if e.op == 'inf':
+        return 'inf' if e.a[0] > 0 else '-inf'
     if e.op in ('x', 'u', 'z', 'q'):
         return '%s%d' % (e.op, e.a[0])
     if e.op in ('p', 'v'):
@@ -93,6 +97,8 @@ def ev(e, leaf, dom, wrap=None):
     op = e.op
     if op == 'c':
         return dom.const(e.a[0])
+    if op == 'inf':
+        return dom.inf(e.a[0])       # only the MX reading has infinite bounds; reference semantics never evaluates them
     if op in LEAVES:
         return leaf(op, e.a)
     if op in WRAP:
@@ -131,7 +137,7 @@ def leaves(e, acc=None):
     if not isinstance(e, E):
         return acc
     if e.op in LEAVES:
-        if e.op != 'c':
+        if e.op not in ('c', 'inf'):
             acc.add((e.op,) + tuple(e.a))
         return acc
     for x in e.a:
@@ -218,6 +224,7 @@ class Spec:
     derscale: Any = None
     algscale: Any = None
     xshape: Any = None      # list of (rows, cols) partitioning nx into declared states; None => scalars
+    zshape: Any = None      # list of sizes partitioning nz into declared (vector valued) algebraic variables; None => scalars
     initial: Any = field(default_factory=list)   # list of (target E leaf, value) for set_initial
     note: str = ''
 
